@@ -100,6 +100,41 @@ def parseDecInt (s : String) : Option Int :=
   if ds.isEmpty || !ds.all isDigit then none
   else some (if neg then -(digitsToNat ds : Int) else (digitsToNat ds : Int))
 
+/-- scientific notation with an integer value: `[+-]?D+(.D+)?[eE][+-]?D+` where the exponent is at least the
+number of fractional digits (what `"%.14g"` produces for integers ≥ 10^15 … and what `tonumber` gets back
+from `tostring(score)`); `none` for any other shape or a non-integer value -/
+def parseSciInt (s : String) : Option Int :=
+  let cs := s.toList
+  let (neg, r) := match cs with
+    | '-' :: r => (true, r)
+    | '+' :: r => (false, r)
+    | r => (false, r)
+  let ip := r.takeWhile isDigit
+  let r1 := r.dropWhile isDigit
+  let (fp, r2) := match r1 with
+    | '.' :: t => (t.takeWhile isDigit, t.dropWhile isDigit)
+    | t => ([], t)
+  match r2 with
+  | e :: t =>
+    if (e == 'e' || e == 'E') && !ip.isEmpty then
+      let (eneg, ds) := match t with
+        | '-' :: u => (true, u)
+        | '+' :: u => (false, u)
+        | u => (false, u)
+      if ds.isEmpty || !ds.all isDigit || eneg then none else
+      let ex := digitsToNat ds
+      if ex < fp.length then none else
+      let m : Nat := digitsToNat (ip ++ fp) * 10 ^ (ex - fp.length)
+      some (if neg then -(m : Int) else (m : Int))
+    else none
+  | [] => none
+
+/-- an integer numeral in plain or scientific notation -/
+def parseNumInt (s : String) : Option Int :=
+  match parseDecInt s with
+  | some i => some i
+  | none => parseSciInt s
+
 /-- could `strtod` accept (a prefix of) this string in a way the integer model does not cover?
 (leading/trailing white space, `.`, exponent, hex, `inf`, `nan`) -/
 def looksNumeric (s : String) : Bool :=
@@ -115,7 +150,7 @@ def looksNumeric (s : String) : Bool :=
 def tonumber : LVal → Except LuaErr LVal
   | .num i => .ok (.num i)
   | .str s =>
-    match parseDecInt s with
+    match parseNumInt s with
     | some i => .ok (.num (round53 i))
     | none =>
       if looksNumeric s then .error (.unsupported s!"tonumber on non-integer numeral {s.quote}")
@@ -187,7 +222,7 @@ def le : LVal → LVal → Except LuaErr Bool
 def arithOperand : LVal → Except LuaErr Int
   | .num i => .ok i
   | .str s =>
-    match parseDecInt s with
+    match parseNumInt s with
     | some i => .ok (round53 i)
     | none =>
       if looksNumeric s then .error (.unsupported s!"arithmetic on non-integer numeral {s.quote}")
